@@ -711,19 +711,33 @@ Proof. reflexivity. Qed.
 Lemma clear_num_eq st ty : clear_num st ty = setMask (put_num st ty (-1)%Z) ty false.
 Proof. reflexivity. Qed.
 
+Ltac unfold_ids :=
+  unfold CC_ENUM_END, is_numeric_type, is_flag_type, CC_OTHER, CC_PRIVATE, CC_NO_CACHE, CC_MAX_STALE,
+    CC_MAX_AGE, CC_S_MAXAGE, CC_MIN_FRESH, CC_STALE_IF_ERROR, CC_PUBLIC, CC_NO_STORE, CC_NO_TRANSFORM,
+    CC_MUST_REVALIDATE, CC_PROXY_REVALIDATE, CC_ONLY_IF_CACHED, CC_IMMUTABLE in *.
 Ltac step_cases :=
-  unfold step_spec, eff, num_of; rewrite ?setValue_any, ?clear_num_eq;
+  rewrite ?setValue_any, ?clear_num_eq;
   repeat match goal with
   | |- context [match d_num ?x with _ => _ end] => destruct (d_num x) eqn:?
   | |- context [match d_qs ?x with _ => _ end] => destruct (d_qs x) as [[?| |]|] eqn:?
   | |- context [if ?c then _ else _] => destruct c eqn:?
   end.
+Ltac step_rw :=
+  repeat first [ rewrite isSet_setMask | rewrite isSet_put_num | rewrite isSet_with_private
+               | rewrite isSet_with_no_cache | rewrite isSet_with_other
+               | rewrite get_num_setMask | rewrite get_num_with_private | rewrite get_num_with_no_cache
+               | rewrite get_num_with_other | rewrite private_put_num | rewrite no_cache_put_num
+               | rewrite other_put_num | rewrite N.eqb_refl ].
 Ltac step_fin :=
-  rewrite ?isSet_setMask, ?isSet_put_num, ?isSet_with_private, ?isSet_with_no_cache, ?isSet_with_other,
-          ?get_num_setMask, ?get_num_with_private, ?get_num_with_no_cache, ?get_num_with_other,
-          ?private_put_num, ?no_cache_put_num, ?other_put_num, ?N.eqb_refl;
+  step_rw;
   cbn [negb andb orb private_ no_cache other setMask with_mask with_private with_no_cache with_other] in *;
+  step_rw;
   try reflexivity; try congruence; try lia.
+(* abstracts the item's type into a variable ty < 15 *)
+Ltac step_intro it ty Hlt :=
+  pose proof (type_lt_end (d_name it)) as Hlt; fold (d_type it) in Hlt;
+  unfold step_spec, eff, num_of; cbv zeta;
+  generalize dependent (d_type it); intros ty; intros.
 
 Lemma step_dup st it : isSet st (d_type it) = true -> d_type it <> CC_OTHER -> step_spec st it = st.
 Proof.
@@ -733,10 +747,59 @@ Qed.
 
 Lemma step_bit_own st it : isSet st (d_type it) = false -> isSet (step_spec st it) (d_type it) = eff it.
 Proof.
-  intros H. pose proof (type_lt_end (d_name it)) as Hlt. fold (d_type it) in Hlt.
-  set (ty := d_type it) in *.
-  unfold CC_ENUM_END, is_numeric_type, is_flag_type, CC_OTHER, CC_PRIVATE, CC_NO_CACHE, CC_MAX_STALE,
-    CC_MAX_AGE, CC_S_MAXAGE, CC_MIN_FRESH, CC_STALE_IF_ERROR, CC_PUBLIC, CC_NO_STORE, CC_NO_TRANSFORM,
-    CC_MUST_REVALIDATE, CC_PROXY_REVALIDATE, CC_ONLY_IF_CACHED, CC_IMMUTABLE in *.
-  step_cases; step_fin.
+  intros H. step_intro it ty Hlt. unfold_ids. step_cases; step_fin.
+Qed.
+
+Lemma step_bit_frame st it F : F <> d_type it -> isSet (step_spec st it) F = isSet st F.
+Proof.
+  intros H. step_intro it ty Hlt. unfold_ids. step_cases; step_fin.
+Qed.
+
+Lemma step_num_own st it : isSet st (d_type it) = false -> is_numeric_type (d_type it) = true ->
+  get_num (step_spec st it) (d_type it) = if eff it then num_of it else (-1)%Z.
+Proof.
+  intros H Hn. step_intro it ty Hlt. rewrite Hn. step_cases; step_fin;
+  rewrite (get_num_put_num _ _ _ _ Hn), N.eqb_refl; reflexivity.
+Qed.
+
+Lemma step_num_frame st it F : F <> d_type it -> get_num (step_spec st it) F = get_num st F.
+Proof.
+  intros H. step_intro it ty Hlt. step_cases; step_fin;
+  match goal with Hn : is_numeric_type _ = true |- _ => rewrite (get_num_put_num _ _ _ _ Hn) end;
+  replace (F =? ty) with false by lia; reflexivity.
+Qed.
+
+Lemma step_priv_own st it : d_type it = CC_PRIVATE -> isSet st CC_PRIVATE = false -> private_ st = [] ->
+  private_ (step_spec st it) = qs_text (d_qs it).
+Proof.
+  intros Ht H Hp. unfold step_spec. rewrite Ht, H. cbn [andb].
+  change (is_numeric_type CC_PRIVATE) with false. change (CC_PRIVATE =? CC_PRIVATE) with true. cbv iota.
+  destruct (d_qs it) as [[v| |]|]; cbn [private_ setMask with_mask with_private qs_text]; try assumption; try reflexivity.
+  now rewrite Hp.
+Qed.
+
+Lemma step_priv_frame st it : d_type it <> CC_PRIVATE -> private_ (step_spec st it) = private_ st.
+Proof.
+  intros H. step_intro it ty Hlt. unfold_ids. step_cases; step_fin.
+Qed.
+
+Lemma step_nc_own st it : d_type it = CC_NO_CACHE -> isSet st CC_NO_CACHE = false -> no_cache st = [] ->
+  no_cache (step_spec st it) = qs_text (d_qs it).
+Proof.
+  intros Ht H Hp. unfold step_spec. rewrite Ht, H. cbn [andb].
+  change (is_numeric_type CC_NO_CACHE) with false. change (CC_NO_CACHE =? CC_PRIVATE) with false.
+  change (CC_NO_CACHE =? CC_NO_CACHE) with true. cbv iota.
+  destruct (d_qs it) as [[v| |]|]; cbn [no_cache setMask with_mask with_no_cache qs_text]; try assumption; try reflexivity.
+  now rewrite Hp.
+Qed.
+
+Lemma step_nc_frame st it : d_type it <> CC_NO_CACHE -> no_cache (step_spec st it) = no_cache st.
+Proof.
+  intros H. step_intro it ty Hlt. unfold_ids. step_cases; step_fin.
+Qed.
+
+Lemma step_other st it :
+  other (step_spec st it) = if d_type it =? CC_OTHER then join2 (other st) it else other st.
+Proof.
+  step_intro it ty Hlt. unfold_ids. step_cases; step_fin.
 Qed.
